@@ -51,7 +51,7 @@ Section Supported.
       match l with [] => true | (_, x) :: l' => supported x && vals l' end in
     match v with
     | PScalar _ sc => scalar_rt_ok sc
-    | PBytes _ ba m c _ => if ba then is_q m c "builtins.bytearray" else is_q m c "builtins.bytes"
+    | PBytes _ ba m c _ => true                              (* subclasses keep their class (C04-F5 repaired) *)
     | PSeq q _ m c nt l =>
         negb nt && all l
         && match q with QList => is_q m c "builtins.list" | QTuple => is_q m c "builtins.tuple" | QSet => is_q m c "builtins.set" end
@@ -139,7 +139,7 @@ Section C04ok.
     match v with
     | PScalar _ sc => scalar_rt_ok sc
     | PSub _ _ _ _ => false                                   (* class lost through json *)
-    | PBytes _ ba m c _ => if ba then is_q m c "builtins.bytearray" else is_q m c "builtins.bytes"
+    | PBytes _ ba m c _ => true                              (* subclasses keep their class (C04-F5 repaired) *)
     | PSeq q _ m c nt l =>
         all l
         && match q with
